@@ -306,6 +306,11 @@ Definition known_holes : list (string * Z * Z) :=
     (* 10: counters recomputed from the imported records (maximum over a collection whose records
            can be deleted, or the last element): the id of a closed newest record is handed out again *)
     ("vault", 21, 10); ("rewards", 34, 10); ("rewards", 40, 10);
+    (* the stable-mint vault id counter joined the class with fix 9acfc67 (C01-F5): the esm
+       redemption set-up now deletes the stable-mint vault it has emptied, so "maximum id of the
+       imported stable-mint vaults" is no longer the counter once the newest one was redeemed
+       (same shape and same consequence as the vault id counter; read from the table) *)
+    ("vault", 22, 10);
     ("lend", 22, 10); ("lend", 23, 10); ("lend", 24, 10); ("lend", 37, 10);
     (* 11: further records that no genesis field carries (read from the table only) *)
     ("asset", 36, 11); ("collector", 9, 11); ("esm", 16, 11); ("esm", 17, 11); ("lend", 81, 11);
@@ -334,7 +339,7 @@ Definition shape_code (r : restore) : Z :=
   match r with RExact => 0 | RMax _ => 1 | RLast _ => 2 | RCount _ => 3 | RZero => 4 | RAbsent => 5 | RUnknown => 6 end.
 
 Definition known_counter_shapes : list (string * Z * Z) :=
-  [ ("vault", 21, 1); ("rewards", 34, 1); ("rewards", 40, 1);
+  [ ("vault", 21, 1); ("vault", 22, 1); ("rewards", 34, 1); ("rewards", 40, 1);
     ("lend", 22, 2); ("lend", 23, 2); ("lend", 24, 2); ("lend", 37, 2);
     ("auction", 19, 2); ("auction", 25, 2);
     ("liquidation", 1, 3);
